@@ -22,6 +22,7 @@ fn main() {
         "C09" => props::c09::run(),
         "C10" => props::c10::run(),
         "C11" => props::c11::run_check(),
+        "C14" => props::c14::run(),
         "C16" => props::c16::run(),
         "C18" => props::c18::run(),
         "rulegen-stats" => { rulegen_stats(); 0 }
@@ -48,6 +49,7 @@ fn replay(path: &str) -> i32 {
         "C09" => props::c09::replay(&v["case"]),
         "C10" => props::c10::replay(&v["case"]),
         "C11" => props::c11::replay(&v["case"]),
+        "C14" => props::c14::replay(&v["case"]),
         "C16" => props::c16::replay(&v["case"]),
         "C18" => props::c18::replay(&v["case"]),
         _ => Err(format!("no replay for {pid}")),
